@@ -106,6 +106,7 @@ func runC16(cx *Ctx, r *Report) {
 	cx.paramCoverage(r)
 	// ---------------- (4) params-derived denominators
 	cx.paramDivisions(r)
+	cx.paramSubtractions(r)
 	// ---------------- (5) constant indexing into a params-derived slice
 	cx.paramIndexing(r)
 	// ---------------- (6) fee − tax cannot go negative
@@ -1374,4 +1375,78 @@ func (cx *Ctx) paramNarrowing(r *Report, rule string) int {
 	}
 	r.ok(rule, "scan", "", fmt.Sprintf("%d panicking 64-bit narrowings on handler paths, none of a parameter-derived value", n))
 	return n
+}
+
+// paramSubtractions (abort class "negative amount"): sdk.Coin.Sub / Coins.Sub / Uint.Sub abort
+// on a negative result. Where an operand derives from a parameter read (a limit, a cap, a
+// fee) the stored state can exceed the parameter after an accepted update, so the call needs
+// a dominating test receiver ≥ argument on the same two values.
+func (cx *Ctx) paramSubtractions(r *Report) {
+	isParamsRead := func(v ssa.Value) bool {
+		c, ok := v.(*ssa.Call)
+		if !ok {
+			return false
+		}
+		for _, e := range cx.calleesOf(c) {
+			if e.Callee.Blocks == nil {
+				continue
+			}
+			for _, pp := range cx.primsOf(e.Callee) {
+				if pp.Kind == "store.get" {
+					for _, px := range pp.Prefix {
+						if isParamsPrefix(px) {
+							return true
+						}
+					}
+				}
+			}
+		}
+		return false
+	}
+	n, nParam := 0, 0
+	for _, f := range cx.P.AllFuncs {
+		if !isConsensusCode(cx, f) || pkgRole(funcPkgPath(f)) == RoleUpgrade {
+			continue
+		}
+		for _, b := range f.Blocks {
+			for _, ins := range b.Instrs {
+				c, ok := ins.(*ssa.Call)
+				if !ok || c.Common().IsInvoke() || len(c.Common().Args) < 2 {
+					continue
+				}
+				pkg, name := calleeName(c.Common())
+				panics := pkg == "github.com/cosmos/cosmos-sdk/types" && (name == "Coin.Sub" || name == "Coins.Sub" || name == "Coin.SubAmount" || name == "DecCoin.Sub" || name == "DecCoins.Sub") ||
+					pkg == "cosmossdk.io/math" && name == "Uint.Sub"
+				if !panics {
+					continue
+				}
+				n++
+				recv, arg := c.Common().Args[0], c.Common().Args[1]
+				if !cx.derivesInterproc(recv, f, isParamsRead, 0, map[ssa.Value]bool{}) && !cx.derivesInterproc(arg, f, isParamsRead, 0, map[ssa.Value]bool{}) {
+					continue
+				}
+				nParam++
+				w := newWalker(cx)
+				fr := &Frame{Fn: f}
+				rt, at := w.ts.Of(recv, fr).LooseString(), w.ts.Of(arg, fr).LooseString()
+				guard := ""
+				for _, ft := range w.FactsAt(fr, c) {
+					t := ft.Text
+					switch {
+					case ft.Holds && (strings.HasSuffix(t, ".IsGTE("+rt+", "+at+")") || strings.HasSuffix(t, ".IsAllGTE("+rt+", "+at+")") || strings.HasSuffix(t, ".GTE("+rt+", "+at+")") || strings.HasSuffix(t, ".IsLTE("+at+", "+rt+")") || strings.HasSuffix(t, ".LTE("+at+", "+rt+")")),
+						!ft.Holds && (strings.HasSuffix(t, ".IsLT("+rt+", "+at+")") || strings.HasSuffix(t, ".LT("+rt+", "+at+")") || strings.HasSuffix(t, ".IsGT("+at+", "+rt+")") || strings.HasSuffix(t, ".GT("+at+", "+rt+")") || strings.HasSuffix(t, ".IsAnyGT("+at+", "+rt+")")):
+						guard = ft.String()
+					}
+				}
+				key := moduleOf(funcPkgPath(f)) + "|" + name + "|" + anchorOf(cx, f)
+				// x − ⌊x·rate⌋: never negative for a rate ≤ 1, which is the fee-tax-bounded obligation
+				if guard == "" && strings.Contains(at, "math.LegacyDec.TruncateInt(math.LegacyDec.Mul(math.LegacyNewDecFromInt("+rt+".Amount), ") && strings.HasPrefix(at, "coin("+rt+".Denom, ") {
+					r.ok("params-subtraction", key, cx.P.Pos(c.Pos()), "the receiver minus a truncated fraction of itself ("+rt+" − ⌊"+rt+"·rate⌋): not negative for a rate ≤ 1 (rule fee-tax-bounded)")
+					continue
+				}
+				r.check(guard != "", "params-subtraction", key, cx.P.Pos(c.Pos()), "the aborting subtraction is dominated by "+guard, name+" of "+rt+" and "+at+" in "+shortFn(f)+" aborts (negative amount) when the argument exceeds the receiver; one of them comes from the module's parameters and no test receiver ≥ argument dominates the call: after an accepted parameter update (a limit lowered below the recorded supply) the handler panics instead of rejecting")
+			}
+		}
+	}
+	r.ok("params-subtraction", "scan", "", fmt.Sprintf("%d aborting subtractions (Coin.Sub, Coins.Sub, Uint.Sub) in consensus code, %d with an operand derived from a parameter read, each under a receiver ≥ argument test", n, nParam))
 }
